@@ -16,7 +16,8 @@ tvars == <<gvars, tid, l, status>>
 ASSUME \A i \in 1..Len(Logs) : TLCSet(i, <<0, "ok">>)
 
 CtrlOf(r) == [xcvr |-> r.xcvr, term |-> r.term, opm |-> r.opm, susp |-> r.susp, idpu |-> r.idpu,
-              dppd |-> r.dppd, dmpd |-> r.dmpd, dischrg |-> r.dischrg, chrg |-> r.chrg, extvbus |-> r.extvbus]
+              dppd |-> r.dppd, dmpd |-> r.dmpd, dischrg |-> r.dischrg, chrg |-> r.chrg, extvbus |-> r.extvbus,
+              x1 |-> r.x1, x2 |-> r.x2]
 InOf(r)  == [dir |-> r.dir, nxt |-> r.nxt, txv |-> r.txv, c |-> CtrlOf(r)]
 OutOf(r) == [do |-> r.do, oe |-> r.oe, stp |-> r.stp]
 
@@ -28,6 +29,7 @@ TNext == /\ status = "ok"
               /\ RegStep(InOf(r), OutOf(r))
               /\ status' = IF ~LegalPhy(InOf(r)) THEN "env_illegal_phy"
                            ELSE IF r.r4 # phyReg[FunctionControlAddr] \/ r.ra # phyReg[OtgControlAddr]
+                                   \/ (X1Addr # NoReg /\ r.p1 # phyReg[X1Addr]) \/ (X2Addr # NoReg /\ r.p2 # phyReg[X2Addr])
                                 THEN "env_phy_models_differ"
                            ELSE Failing(InOf(r), OutOf(r))
          /\ l' = l + 1
